@@ -1,5 +1,307 @@
 /-
-C17 — property theorems (stub: not built yet).
+C17 — Group numbers and names form one consistent map.
+
+Theorems about `Groups.assign`, the model of the capture bookkeeping of `syntax/parser.go`
+(pre-scan, `assignNameSlots`, `assignOrderedNameSlots`, main parse), `syntax/writer.go` (dense
+remap) and of the lookup functions of `regexp.go`, `match.go`, `scanDollar`/`replacerdata.go`.
+Leg G of the harness checks on every run that `assign` computes exactly Go's tables
+(`GetGroupNumbers`, `GetGroupNames`, `Code.Caps`, `Capsize`, the number every group captures into)
+for patterns printed from random event lists.
+
+Hypotheses used below:
+* `GoodNames evs`: a name written in the pattern is not empty and not all digits (the Go parser
+  reads an all-digit name as a number), so no written name equals `strconv.Itoa k`;
+* for MaintainCaptureOrder / ECMAScript: `OrdClean evs` / `NoOrdNumbered`: no explicitly numbered
+  group.  Explicit numbers under MaintainCaptureOrder and numbers written with a leading zero are
+  where the real code is inconsistent (design.d/C17.md, suspected defects); the `example`s at the end
+  exhibit these inconsistencies in the model.
 -/
+import RegexVerif.Lemmas.Groups
+
 namespace RegexVerif.Props.C17
+open RegexVerif.Groups
+
+/-! ### the numbering rule -/
+
+/-- **C17, numbering rule (default order).** Without MaintainCaptureOrder / ECMAScript:
+    * the `j`-th unnamed group (by opening parenthesis) captures into number `j` — or into nothing
+      under ExplicitCapture;
+    * an explicitly numbered group `(?<k>…)` captures into `k`;
+    * a named group captures into the number `GroupNumberFromName` gives for its name, so groups
+      with the same name share one number;
+    * a non-capturing group captures into nothing. -/
+theorem numbering_rule {evs : List Event} {cfg : Cfg} {m : Maps} (h : assign evs cfg = some m)
+    (ho : cfg.ord = false) (hg : GoodNames evs) (i : Nat) (e : Event) (he : evs[i]? = some e) :
+    match e with
+    | .unnamed => m.evNums[i]? =
+        some (if cfg.explicitCapture then none else some (1 + countUnnamed (evs.take i)))
+    | .numbered k => m.evNums[i]? = some (some k)
+    | .numbered0 k => m.evNums[i]? = some (some k)
+    | .named nm => ∃ k, groupNumberFromName m nm = some k ∧ m.evNums[i]? = some (some k)
+    | .noncap => m.evNums[i]? = some none := by
+  obtain ⟨t, ht, hmt, _, hgn, _⟩ := assign_tables h
+  have hs := (groupNumbers_spec ho evs 1 m.evNums hgn).2 i e he
+  have hcn : m.capnames = t.capnames := by rw [← hmt]; rfl
+  cases e with
+  | unnamed => exact hs
+  | numbered k => exact hs.1
+  | numbered0 k => exact hs.1
+  | noncap => exact hs
+  | named nm =>
+    obtain ⟨k, hk1, hk2⟩ := hs
+    refine ⟨k, ?_, hk2⟩
+    unfold groupNumberFromName
+    rw [hcn]
+    cases hc : t.capnames with
+    | none => simp [hc] at hk1
+    | some cn => simpa [hc] using hk1
+
+/-- `(a)(?<x>b)(?<7>c)(?<x>d)(?:e)`: 1, x ↦ 2, 7, x again, nothing -/
+example : (assign [.unnamed, .named "x", .numbered 7, .named "x", .noncap] {}).map (·.evNums) =
+    some [some 1, some 2, some 7, some 2, none] := by decide
+
+/-- **C17, numbering rule, named groups (default order).** The distinct names of the pattern, in
+    order of first appearance, get ascending numbers: the first name the least number above the
+    count of unnamed groups (0 under ExplicitCapture) that no group claims explicitly, every further
+    name the least such number above its predecessor's (`ChainRule`: `prev < k`, `k` is not an
+    explicit number, every number strictly between is one). -/
+theorem named_numbers_rule {evs : List Event} {cfg : Cfg} {m : Maps} (h : assign evs cfg = some m)
+    (ho : cfg.ord = false) (hg : GoodNames evs) :
+    ChainRule (groupNumberFromName m) (fun c => c ∈ explicitNumbers evs)
+      (if cfg.explicitCapture then 0 else countUnnamed evs) (namesInOrder evs) :=
+  assign_named_rule h ho hg
+
+/-- `(?<y>a)(b)(?<3>c)(?<x>d)(e)(?<y>f)(?<2>g)`: the unnamed groups are 1 and 2, the numbers 2 and 3
+    are also claimed explicitly, so y ↦ 4 and x ↦ 5 -/
+example : (assign [.named "y", .unnamed, .numbered 3, .named "x", .unnamed, .named "y", .numbered 2] {}).map
+    (fun m => (namesInOrder [.named "y", .unnamed, .numbered 3, .named "x", .unnamed, .named "y", .numbered 2],
+               groupNumberFromName m "y", groupNumberFromName m "x", m.evNums)) =
+    some (["y", "x"], some 4, some 5, [some 4, some 1, some 3, some 5, some 2, some 4, some 2]) := by decide
+
+/-- **C17, numbering rule (pattern order).** With MaintainCaptureOrder or ECMAScript the numbers
+    are handed out in one pass over the pattern: every unnamed group and every first occurrence of
+    a name takes the next number, a repeated name shares the number of its first occurrence
+    (`orderSpec`).  The parser's two passes (pre-scan, main parse) agree on this. -/
+theorem order_numbering_rule {evs : List Event} {cfg : Cfg} {m : Maps} (h : assign evs cfg = some m)
+    (ho : cfg.ord = true) (hcl : OrdClean evs) (hg : GoodNames evs) :
+    m.evNums = orderSpec cfg.explicitCapture evs [] 1 :=
+  (assign_ord_spec h ho hcl hg).1
+
+/-- `(a)(?<x>b)(c)(?<x>d)(?<y>e)` under MaintainCaptureOrder: 1 2 3 2 4 -/
+example : (assign [.unnamed, .named "x", .unnamed, .named "x", .named "y"] { mco := true }).map (·.evNums) =
+    some [some 1, some 2, some 3, some 2, some 4] := by decide
+
+/-! ### names ↔ numbers -/
+
+/-- **C17, the two lists are aligned.** `GetGroupNames()` and `GetGroupNumbers()` have the same
+    length (`capsize`), the numbers are strictly ascending, and `GetGroupNames()[i]` is
+    `GroupNameFromNumber(GetGroupNumbers()[i])`. -/
+theorem names_numbers_aligned {evs : List Event} {cfg : Cfg} {m : Maps} (h : assign evs cfg = some m)
+    (hg : GoodNames evs) (hno : NoOrdNumbered cfg evs) :
+    (getGroupNames m).length = m.capsize ∧ (getGroupNumbers m).length = m.capsize ∧
+    (getGroupNumbers m).Pairwise (· < ·) ∧
+    ∀ (i n : Nat), (getGroupNumbers m)[i]? = some n →
+      (getGroupNames m)[i]? = some (groupNameFromNumber m n) := by
+  have hm := (assign_inv h hg hno).1
+  exact ⟨hm.names_len, hm.used.2.1, hm.used.1, fun i n hi => hm.aligned hi⟩
+
+/-- **C17, the lookups are inverse.** For every listed number `n` whose name is not empty (outside
+    ECMAScript no name is empty): `GroupNumberFromName(GroupNameFromNumber(n)) = n`; for every
+    listed non-empty name `s`: `GroupNameFromNumber(GroupNumberFromName(s)) = s`. -/
+theorem name_number_inverse {evs : List Event} {cfg : Cfg} {m : Maps} (h : assign evs cfg = some m)
+    (hg : GoodNames evs) (hno : NoOrdNumbered cfg evs) :
+    (∀ n ∈ getGroupNumbers m, groupNameFromNumber m n ≠ "" →
+        groupNumberFromName m (groupNameFromNumber m n) = some n) ∧
+    (∀ s ∈ getGroupNames m, s ≠ "" →
+        ∃ n, groupNumberFromName m s = some n ∧ n ∈ getGroupNumbers m ∧ groupNameFromNumber m n = s) ∧
+    (cfg.ecma = false → "" ∉ getGroupNames m) := by
+  have hm := (assign_inv h hg hno).1
+  have hecma : m.ecma = cfg.ecma := by obtain ⟨_, _, _, he, _⟩ := assign_tables h; exact he
+  refine ⟨?_, ?_, ?_⟩
+  · intro n hn hne
+    obtain ⟨i, hi⟩ := List.mem_iff_getElem?.mp hn
+    have ha := hm.aligned hi
+    rw [hm.number_of_listed_name ha hne, hi]
+  · intro s hs hne
+    obtain ⟨i, hi⟩ := List.mem_iff_getElem?.mp hs
+    have hlt : i < (getGroupNumbers m).length := by
+      have := (List.getElem?_eq_some_iff.mp hi).1
+      rw [hm.names_len] at this; rw [hm.used.2.1]; exact this
+    have hn : (getGroupNumbers m)[i]? = some (getGroupNumbers m)[i] := List.getElem?_eq_getElem hlt
+    refine ⟨(getGroupNumbers m)[i], ?_, List.getElem_mem hlt, ?_⟩
+    · rw [hm.number_of_listed_name hi hne, hn]
+    · have := hm.aligned hn
+      rw [hi] at this; injection this with this; exact this.symm
+  · intro he
+    unfold getGroupNames
+    cases hc : m.caplist with
+    | none =>
+      simp only [List.mem_map, not_exists, not_and]
+      intro x _ hx; exact itoa_ne_empty x hx
+    | some cl => exact hm.t.nonempty (by rw [hecma]; exact he) cl hc
+
+/-- sparse numbers, a duplicate name, a digit-like name: `(a)(?<x1>b)(?<7>c)(?<x1>d)` -/
+example : (assign [.unnamed, .named "x1", .numbered 7, .named "x1"] {}).map
+    (fun m => (getGroupNumbers m, getGroupNames m, (getGroupNumbers m).map (groupNameFromNumber m),
+               (getGroupNames m).map (groupNumberFromName m))) =
+    some ([0, 1, 2, 7], ["0", "1", "x1", "7"], ["0", "1", "x1", "7"], [some 0, some 1, some 2, some 7]) := by
+  decide
+
+/-! ### the dense remap -/
+
+/-- **C17, dense remap.** `writer.mapCapnum` is a bijection from the used numbers
+    (`GetGroupNumbers`, which are exactly the numbers the parser's `isCaptureSlot` accepts) onto the
+    slots `0 … capsize-1`, and it is monotone: the `i`-th number in ascending order gets slot `i`. -/
+theorem dense_remap_bijective {evs : List Event} {cfg : Cfg} {m : Maps} (h : assign evs cfg = some m)
+    (hg : GoodNames evs) (hno : NoOrdNumbered cfg evs) :
+    (∀ n, n ∈ getGroupNumbers m ↔ n ∈ m.caps) ∧
+    (∀ n ∈ getGroupNumbers m, ∃ s, slotOf m n = some s ∧ s < m.capsize) ∧
+    (∀ a ∈ getGroupNumbers m, ∀ b ∈ getGroupNumbers m, slotOf m a = slotOf m b → a = b) ∧
+    (∀ s, s < m.capsize → ∃ n ∈ getGroupNumbers m, slotOf m n = some s) := by
+  have hm := (assign_inv h hg hno).1
+  have hlen := hm.used.2.1
+  refine ⟨hm.used.2.2, ?_, ?_, ?_⟩
+  · intro n hn
+    obtain ⟨i, hi⟩ := List.mem_iff_getElem?.mp hn
+    exact ⟨i, hm.slotOf_getElem hi, by have := (List.getElem?_eq_some_iff.mp hi).1; omega⟩
+  · intro a ha b hb hab
+    obtain ⟨i, hi⟩ := List.mem_iff_getElem?.mp ha
+    obtain ⟨j, hj⟩ := List.mem_iff_getElem?.mp hb
+    rw [hm.slotOf_getElem hi, hm.slotOf_getElem hj] at hab
+    injection hab with hab; subst hab
+    rw [hi] at hj; injection hj
+  · intro s hs
+    have hlt : s < (getGroupNumbers m).length := by omega
+    exact ⟨(getGroupNumbers m)[s], List.getElem_mem hlt, hm.slotOf_getElem (List.getElem?_eq_getElem hlt)⟩
+
+/-- **C17, order of `Match.Groups()`.** `Groups()[i]` is the dense slot `i`; the number whose captures
+    live there is `GetGroupNumbers()[i]`, and `GroupByNumber` of that number returns slot `i`. -/
+theorem groups_order_eq_numbers {evs : List Event} {cfg : Cfg} {m : Maps} (h : assign evs cfg = some m)
+    (hg : GoodNames evs) (hno : NoOrdNumbered cfg evs) (i n : Nat) (hi : (getGroupNumbers m)[i]? = some n) :
+    slotOf m n = some i ∧ groupByNumberSlot m n = some i := by
+  have hm := (assign_inv h hg hno).1
+  have hs := hm.slotOf_getElem hi
+  have hlt : i < m.capsize := by
+    have := (List.getElem?_eq_some_iff.mp hi).1; rw [hm.used.2.1] at this; exact this
+  refine ⟨hs, ?_⟩
+  unfold groupByNumberSlot
+  unfold slotOf at hs
+  cases hc : m.codeCaps with
+  | none => rw [hc] at hs; injection hs with hs; subst hs; simp [hlt]
+  | some l => rw [hc] at hs; simp only at hs; simp [hs, hlt]
+
+example : (assign [.numbered 5, .unnamed, .numbered 3] {}).map
+    (fun m => (getGroupNumbers m, (getGroupNumbers m).map (slotOf m), (getGroupNumbers m).map (groupByNumberSlot m), m.capsize)) =
+    some ([0, 1, 3, 5], [some 0, some 1, some 2, some 3], [some 0, some 1, some 2, some 3], 4) := by decide
+
+/-! ### references -/
+
+/-- every group of the pattern captures into a number the tables list -/
+theorem group_number_listed {evs : List Event} {cfg : Cfg} {m : Maps} (h : assign evs cfg = some m)
+    (hg : GoodNames evs) (hcl : cfg.ord = true → OrdClean evs) (i n : Nat) (hi : m.evNums[i]? = some (some n)) :
+    n ∈ m.caps := by
+  cases ho : cfg.ord with
+  | false => exact evNums_mem_caps h ho hg i n hi
+  | true => exact (assign_ord_spec h ho (hcl ho) hg).2 i n hi
+
+/-- **C17, backreferences.** If the `i`-th group of the pattern captures into number `n`, then `\n`
+    (and `\k<n>`) compiles to a reference to the very slot that group writes; if the group is written
+    with the name `s`, so does `\k<s>` / `(?P=s)`; and `GroupByNumber(n)` / `GroupByName(s)` read
+    that slot. -/
+theorem backref_same_slot {evs : List Event} {cfg : Cfg} {m : Maps} (h : assign evs cfg = some m)
+    (hg : GoodNames evs) (hno : NoOrdNumbered cfg evs) (hcl : cfg.ord = true → OrdClean evs)
+    (i n : Nat) (hi : m.evNums[i]? = some (some n)) :
+    (∃ s, evSlot m i = some s ∧ s < m.capsize ∧ backrefSlot m n = some s ∧ groupByNumberSlot m n = some s) ∧
+    (∀ nm, evs[i]? = some (.named nm) → backrefNameSlot m nm = evSlot m i ∧ groupByNameSlot m nm = evSlot m i) := by
+  have hm := (assign_inv h hg hno).1
+  have hmem : n ∈ m.caps := group_number_listed h hg hcl i n hi
+  have hn : n ∈ getGroupNumbers m := (hm.used.2.2 n).mpr hmem
+  obtain ⟨j, hj⟩ := List.mem_iff_getElem?.mp hn
+  obtain ⟨hs1, hs2⟩ := groups_order_eq_numbers h hg hno j n hj
+  have hjlt : j < m.capsize := by
+    have := (List.getElem?_eq_some_iff.mp hj).1; rw [hm.used.2.1] at this; exact this
+  have hev : evSlot m i = some j := by unfold evSlot; simp [hi, hs1]
+  refine ⟨⟨j, hev, hjlt, by unfold backrefSlot; simp [hmem, hs1], hs2⟩, ?_⟩
+  intro nm he
+  -- the number of a named group is what the name maps to
+  have hk : (m.capnames.bind fun c => c.lookup nm) = some n := by
+    obtain ⟨t, _, hmt, _, hgn, _⟩ := assign_tables h
+    have hcn : m.capnames = t.capnames := by rw [← hmt]; rfl
+    have := groupNumbers_named evs 1 m.evNums hgn i he
+    rw [this] at hi; injection hi with hi
+    rw [hcn]; exact hi
+  constructor
+  · unfold backrefNameSlot; rw [hk, hev]; simpa using hs1
+  · unfold groupByNameSlot groupNumberFromName
+    cases hc : m.capnames with
+    | none => simp [hc] at hk
+    | some cn => simp [hc] at hk; simp [hk, hs2, hev]
+
+/-- **C17, replacement references.** `$n` / `${n}` for a listed number and `${s}` for a name written
+    in the pattern resolve (`scanDollar`, then `caps[slot]` in `NewReplacerData`) to the same dense
+    slot as the backreferences `\n` and `\k<s>`. -/
+theorem repl_ref_same_slot {evs : List Event} {cfg : Cfg} {m : Maps} (h : assign evs cfg = some m)
+    (hg : GoodNames evs) (hno : NoOrdNumbered cfg evs) :
+    (∀ n ∈ getGroupNumbers m, replSlot m n = backrefSlot m n ∧ (replSlot m n).isSome) ∧
+    (∀ nm, Event.named nm ∈ evs → replNameSlot m nm = backrefNameSlot m nm ∧ (replNameSlot m nm).isSome) := by
+  obtain ⟨hm, hnames⟩ := assign_inv h hg hno
+  constructor
+  · intro n hn
+    have hmem : n ∈ m.caps := (hm.used.2.2 n).mp hn
+    obtain ⟨j, hj⟩ := List.mem_iff_getElem?.mp hn
+    have hs := hm.slotOf_getElem hj
+    have hjlt : j < m.capsize := by
+      have := (List.getElem?_eq_some_iff.mp hj).1; rw [hm.used.2.1] at this; exact this
+    unfold replSlot backrefSlot
+    simp only [hmem, if_true]
+    unfold slotOf at hs ⊢
+    cases hc : m.codeCaps with
+    | none =>
+      rw [hc] at hs; injection hs with hs; subst hs
+      simp [hjlt]
+    | some l => rw [hc] at hs; simp only at hs ⊢; simp [hs]
+  · intro nm hnm
+    obtain ⟨k, hk1, hk2⟩ := hnames nm hnm
+    have hn : k ∈ getGroupNumbers m := (hm.used.2.2 k).mpr hk2
+    obtain ⟨j, hj⟩ := List.mem_iff_getElem?.mp hn
+    have hs := hm.slotOf_getElem hj
+    unfold replNameSlot backrefNameSlot
+    rw [hk1]
+    simp only [Option.bind_some]
+    unfold slotOf at hs ⊢
+    cases hc : m.codeCaps with
+    | none => simp
+    | some l => rw [hc] at hs; simp only at hs ⊢; simp [hs]
+
+/-- `(a)(?<x>b)(?<7>c)`: `\7`, `$7`, `${x}`, `\k<x>` and the groups themselves -/
+example : (assign [.unnamed, .named "x", .numbered 7] {}).map
+    (fun m => [evSlot m 2, backrefSlot m 7, replSlot m 7, groupByNumberSlot m 7,
+               evSlot m 1, backrefNameSlot m "x", replNameSlot m "x", groupByNameSlot m "x"]) =
+    some [some 3, some 3, some 3, some 3, some 2, some 2, some 2, some 2] := by decide
+
+/-! ### the model exhibits the suspected defects of the real code (design.d/C17.md) -/
+
+/-- F1: with sparse numbers `Match.Groups()[3].Name` is `""` although the group is named "7" -/
+example : (assign [.unnamed, .named "x", .numbered 7] {}).map
+    (fun m => (getGroupNames m, (List.range m.capsize).map (groupsName m))) =
+    some (["0", "1", "x", "7"], ["0", "1", "x", ""]) := by decide
+
+/-- F2: `GroupByNumber(3)` returns the slot of group 7 although 3 is not a group number -/
+example : (assign [.unnamed, .named "x", .numbered 7] {}).map (fun m => (getGroupNumbers m, groupByNumberSlot m 3)) =
+    some ([0, 1, 2, 7], some 3) := by decide
+
+/-- F3: `(a)(?<1>b)` under MaintainCaptureOrder: both groups capture into number 1, the name "1" maps to 2 -/
+example : (assign [.unnamed, .numbered 1] { mco := true }).map
+    (fun m => (m.evNums, getGroupNames m, groupNumberFromName m (groupNameFromNumber m 1))) =
+    some ([some 1, some 1], ["0", "1", "1"], some 2) := by decide
+
+/-- F5: `(?<x>a)(?<01>b)`: the leading-zero number is not reserved, `x` gets number 1 as well -/
+example : (assign [.named "x", .numbered0 1] {}).map (fun m => (m.evNums, getGroupNames m)) =
+    some ([some 1, some 1], ["0", "x"]) := by decide
+
+/-- F6: `(?<01>a)(b)` under MaintainCaptureOrder: the second group captures into number 2,
+    which no table knows (the engine then indexes past `capsize`) -/
+example : (assign [.numbered0 1, .unnamed] { mco := true }).map (fun m => (m.evNums, getGroupNumbers m, m.capsize)) =
+    some ([some 1, some 2], [0, 1], 2) := by decide
+
 end RegexVerif.Props.C17
